@@ -220,8 +220,8 @@ Fixpoint htrace {A} (srv : server) (n : nat) (p : hprog A) : list req :=
 
 Definition is_error_status (s : N) : bool := (400 <=? s) && (s <? 600).
 
-(* HttpAccessor.__init__: base URL normalisation; r.path[-1] on an empty path
-   is an IndexError *)
+(* HttpAccessor.__init__: base URL normalisation:
+   r.path if r.path.endswith("/") else r.path + "/"  (an empty path becomes "/") *)
 Definition urlunsplit_base (scheme netloc path : list N) : list N :=
   let url :=
     if negb (bytes_eqb netloc [])
@@ -235,12 +235,11 @@ Definition urlunsplit_base (scheme netloc path : list N) : list N :=
 
 Definition http_init (url : list N) : outcome (list N) :=
   let r := urlsplit url in
-  match rev (u_path r) with
-  | [] => Crash IndexError
-  | l :: _ =>
-      let p := if l =? 47 then u_path r else u_path r ++ [47] in
-      Ok (urlunsplit_base (u_scheme r) (u_netloc r) p)
-  end.
+  let p := match rev (u_path r) with
+           | l :: _ => if l =? 47 then u_path r else u_path r ++ [47]
+           | [] => [47]
+           end in
+  Ok (urlunsplit_base (u_scheme r) (u_netloc r) p).
 
 (* what requests hands back as r.content *)
 Definition content (enc : bool) (body : B) : option B :=
@@ -286,7 +285,8 @@ Definition hs_file_exists (url : list N) (k : bool -> hprog (outcome B)) : hprog
       else if is_error_status st then HRet IOErr else k false
   end).
 
-(* HttpShard.read_bytes: Range GET, raise_for_status, length check *)
+(* HttpShard.read_bytes: nothing to ask for an empty range; otherwise Range
+   GET, raise_for_status, length check *)
 Definition hs_read_bytes (shard_url : list N) (legacy : bool) (header_len offset len : N)
            (k : list N -> hprog (outcome B)) : hprog (outcome B) :=
   let '(url, off) :=
@@ -294,6 +294,7 @@ Definition hs_read_bytes (shard_url : list N) (legacy : bool) (header_len offset
       if offset <? header_len then (shard_url ++ s_index, offset)
       else (shard_url ++ s_data, offset - header_len)
     else (shard_url ++ s_shard, offset) in
+  if len =? 0 then k [] else
   (* Python: f"bytes={offset}-{offset+length-1}" on unbounded integers *)
   HDo {| r_meth := GET; r_url := url; r_range := Some (off, off + len - 1) |} (fun r =>
   match r with
@@ -353,42 +354,93 @@ Fixpoint hs_populate (shard_url : list N) (legacy : bool) (hl : N) (ranges : lis
         end)
   end.
 
-(* HttpShard.__init__ followed by fetch_cmc_chunk.
-   [use_ro] = false is the code as it is: fetch_cmc_chunk consults
-   self.minishard_dict, which nothing fills (populate_minishard_dict fills
-   self.ro_minishard_dict): the assertion fails for every identifier.
-   [use_ro] = true is the proposed repair; then the lookup succeeds when a
-   populated minishard has the identifier's minishard number, and the chunk
-   bytes are read with one more Range request at the location [locate] gives
-   (the local reader's computation, taken as given). *)
+(* HttpShard.__init__ followed by fetch_cmc_chunk: the probes, the shard index
+   and the minishard indices are read; a shard that is not there is a
+   ShardedIOError; fetch_cmc_chunk looks the identifier up in the minishards
+   read (ro_minishard_dict, then an assertion on the writer-side dictionary,
+   which is empty for a reader) and reads the chunk with one more Range
+   request.  Which minishard holds an identifier and where the chunk lies in
+   it is the local reader's computation (Shard/ShardReader.v), taken as given:
+   [locate idxs id] = Ok (offset, length) | IOErr | Crash AssertionError (no
+   minishard for the identifier) | Crash IndexError ... *)
 Variable locate : list (list N) -> N -> outcome (N * N).    (* decoded indices, id -> (offset, length) *)
 Variable data_decode : list N -> outcome (list N).           (* ShardSpec.data_decoder *)
 
-Definition hs_fetch (use_ro : bool) (scale_url shard_name : list N) (hl : N) (cmc : N)
+Definition hs_fetch (scale_url shard_name : list N) (hl : N) (cmc : N)
   : hprog (outcome B) :=
   let su := scale_url ++ shard_name in
   let go (legacy : bool) :=
     hs_read_bytes su legacy hl 0 hl (fun hdr =>
       hs_populate su legacy hl (pairs (words64 (length hdr) hdr)) [] (fun idxs =>
-        if negb use_ro then HRet (Crash AssertionError)
-        else match locate idxs cmc with
-             | Ok (off, len) =>
-                 hs_read_bytes su legacy hl off len (fun raw =>
-                   match data_decode raw with
-                   | Ok b => HRet (Ok (plain b))
-                   | Crash c => HRet (Crash c)
-                   | _ => HRet IOErr
-                   end)
-             | Crash c => HRet (Crash c)
-             | _ => HRet IOErr
-             end)) in
+        match locate idxs cmc with
+        | Ok (off, len) =>
+            hs_read_bytes su legacy hl off len (fun raw =>
+              match data_decode raw with
+              | Ok b => HRet (Ok (plain b))
+              | Crash c => HRet (Crash c)
+              | _ => HRet IOErr
+              end)
+        | Crash c => HRet (Crash c)
+        | _ => HRet IOErr
+        end)) in
   hs_file_exists (su ++ s_shard) (fun e1 =>
     if e1 then go false
     else hs_file_exists (su ++ s_index) (fun e2 =>
       if e2 then
         hs_file_exists (su ++ s_data) (fun e3 =>
-          if e3 then go true else HRet (Crash AssertionError))   (* assert self.can_read_cmc *)
-      else HRet (Crash AssertionError))).
+          if e3 then go true else HRet IOErr)     (* ShardedIOError: shard not found *)
+      else HRet IOErr)).
+
+(* The same algorithm over an arbitrary byte source: this is the code that
+   Shard (local files) and HttpShard share (ShardCMC.__init__,
+   populate_minishard_dict, ReadableMiniShardCMC).  [ex suffix]: does
+   <shard><suffix> exist; [rd legacy offset length]: read_bytes; [missing]:
+   what happens when the shard is not there. *)
+Section ALGO.
+Variable ex : list N -> outcome bool.
+Variable rd : bool -> N -> N -> outcome (list N).
+Variable missing : outcome (list N).
+
+Fixpoint populate_pure (legacy : bool) (hl : N) (ranges : list (N * N)) (acc : list (list N))
+  : outcome (list (list N)) :=
+  match ranges with
+  | [] => Ok (rev acc)
+  | (off, en) :: r =>
+      let len := (en + two64 - off) mod two64 in
+      if len =? 0 then populate_pure legacy hl r acc
+      else bind (rd legacy (off + hl) len) (fun raw =>
+        match idx_decode raw with
+        | None => Crash ZlibError
+        | Some dec =>
+            match minishard_ok dec with
+            | Ok _ => populate_pure legacy hl r (dec :: acc)
+            | Crash c => Crash c
+            | _ => IOErr
+            end
+        end)
+  end.
+
+Definition shard_fetch_pure (hl cmc : N) : outcome (list N) :=
+  let go (legacy : bool) :=
+    bind (rd legacy 0 hl) (fun hdr =>
+    bind (populate_pure legacy hl (pairs (words64 (length hdr) hdr)) []) (fun idxs =>
+      match locate idxs cmc with
+      | Ok (off, len) =>
+          bind (rd legacy off len) (fun raw =>
+            match data_decode raw with
+            | Ok b => Ok b
+            | Crash c => Crash c
+            | _ => IOErr
+            end)
+      | Crash c => Crash c
+      | _ => IOErr
+      end)) in
+  bind (ex s_shard) (fun e1 =>
+    if e1 then go false
+    else bind (ex s_index) (fun e2 =>
+      if e2 then bind (ex s_data) (fun e3 => if e3 then go true else missing)
+      else missing)).
+End ALGO.
 
 (* ---------- ShardedHttpAccessor.__init__ ---------- *)
 (* the info setter: the first offending scale decides.  AttributeError has
@@ -648,3 +700,36 @@ Definition serve (sc : scfg) (t : fs B) : server B :=
   | Some parts => serve_parts sc t parts (r_meth rq) (r_range rq)
   end.
 End SERVE.
+
+(* ====================================================================== *)
+(* The local shard reader's file access (Shard.file_exists / read_bytes of
+   sharded_file_accessor.py): is_file probes, and seek + read of the shard
+   file (or of the legacy .index / .data pair).  [checked] = true adds the
+   length check that only the HTTP reader performs. *)
+Section LOCAL_SHARD.
+Variable B : Type.
+Variable unplain : B -> option (list N).
+
+Definition shard_file (dir : path) (name suffix : list N) : path := dir ++ [name ++ suffix].
+
+Definition local_ex (t : fs B) (dir : path) (name suffix : list N) : outcome bool :=
+  Ok (is_file B t (shard_file dir name suffix)).
+
+Definition pick (legacy : bool) (hl off : N) : list N * N :=
+  if legacy then if off <? hl then (s_index, off) else (s_data, off - hl) else (s_shard, off).
+
+Definition local_rd (checked : bool) (t : fs B) (dir : path) (name : list N) (hl : N)
+           (legacy : bool) (off len : N) : outcome (list N) :=
+  if len =? 0 then Ok [] else
+  let '(suffix, o) := pick legacy hl off in
+  match lookup B t (shard_file dir name suffix) with
+  | Some (File d) =>
+      match unplain d with
+      | None => Crash OutOfFuel            (* outside the model: not a plain file *)
+      | Some x =>
+          let y := firstn (N.to_nat len) (skipn (N.to_nat o) x) in     (* fp.seek(o); fp.read(len) *)
+          if checked && negb (lenN y =? len) then IOErr else Ok y
+      end
+  | _ => IOErr
+  end.
+End LOCAL_SHARD.
